@@ -7,7 +7,7 @@
 From Coq Require Import List Arith ZArith Bool Reals.
 From T4V Require Import Base.Scalar C07.Model C07.ProofsAlgebra C07.ProofsComb C07.ProofsMain
   C07.ProofsGeom C07.ProofsExample C07.ProofsDomain C07.ProofsRhp C07.ModelDevelop C07.ProofsDevelop
-  C07.ProofsErrors C07.LinkC03.
+  C07.ProofsErrors C07.LinkC03 C07.ProofsCaps.
 Import ListNotations.
 Open Scope R_scope.
 
@@ -531,3 +531,20 @@ Theorem C07_develop_lattice_hex_is_tied : forall (dic : Z -> list rsurf) (ids : 
   develop_lattice_hex_gen RS dic ids cell = develop_lattice_hex (extract_surfaces dic ids) cell.
 Proof. exact develop_lattice_hex_is_gen. Qed.
 Print Assumptions C07_develop_lattice_hex_is_tied.
+
+(* an admissible prism whose seventh or eighth plane is parallel to the axis:
+   ZeroDivisionError (hexVertices' first projection, or the projection on the
+   eighth plane) *)
+Theorem C07_caps_parallel_to_axis :
+  forall (c u : rvec) (w : nat -> rvec) (l : list nat) (surfs : list rsurf),
+  In l all_listings ->
+  (forall i, (i < 6)%nat -> carries u w (pl surfs i) (side_at l i)) ->
+  (forall i, (i < 6)%nat -> sd surfs i = planeSide RS c (pl surfs i) /\ sd surfs i <> 0%Z) ->
+  (forall k, wv w (k + 3) = vsub (vscale 2 c) (wv w k)) ->
+  ((forall k, 0 < det3 (vsub (wv w (k + 1)) (wv w k)) (vsub (wv w (k + 2)) (wv w (k + 1))) u) \/
+   (forall k, det3 (vsub (wv w (k + 1)) (wv w k)) (vsub (wv w (k + 2)) (wv w (k + 1))) u < 0)) ->
+  List.length surfs = 8%nat ->
+  dot u (snd (pl surfs 6)) = 0 \/ dot u (snd (pl surfs 7)) = 0 ->
+  hexLatticeBaseVectors RS surfs = Err EZeroDiv.
+Proof. exact caps_parallel. Qed.
+Print Assumptions C07_caps_parallel_to_axis.
